@@ -20,6 +20,8 @@ type pstep struct {
 	SKey string
 	IKey int64
 	Name string
+	// Bin: the map key is addressed by its thrift-binary encoding (PathBinKey) instead of by string / int
+	Bin []byte
 }
 
 func (p pstep) String() string {
@@ -55,12 +57,61 @@ func toLibPath(ps []pstep, byName bool) []generic.Path {
 		case 1:
 			out[i] = generic.NewPathIndex(p.Idx)
 		case 2:
-			out[i] = generic.NewPathStrKey(p.SKey)
+			if p.Bin != nil {
+				out[i] = binKeyPath(p.Bin)
+			} else {
+				out[i] = generic.NewPathStrKey(p.SKey)
+			}
 		default:
-			out[i] = generic.NewPathIntKey(int(p.IKey))
+			if p.Bin != nil {
+				out[i] = binKeyPath(p.Bin)
+			} else {
+				out[i] = generic.NewPathIntKey(int(p.IKey))
+			}
 		}
 	}
+	clobberStack()
 	return out
+}
+
+// binKeyPath builds a PathBinKey the way a caller's helper does: the encoded key lives in a local array
+// of a function that returns the Path, so the Path outlives the frame and the bytes must have moved to the heap.
+//
+//go:noinline
+func binKeyPath(k []byte) generic.Path {
+	var kb [24]byte
+	if len(k) > len(kb) {
+		return generic.NewPathBinKey(append([]byte{}, k...))
+	}
+	n := copy(kb[:], k)
+	return generic.NewPathBinKey(kb[:n])
+}
+
+// clobberStack overwrites the stack area below the caller's frame (where binKeyPath's frame was).
+//
+//go:noinline
+func clobberStack() byte {
+	var junk [512]byte
+	for i := range junk {
+		junk[i] = 0xEE
+	}
+	return junk[17]
+}
+
+// withBinKeys re-spells some map-key steps of path as binary keys.
+func (c *c04) withBinKeys(rootT *TType, path []pstep) {
+	t := rootT
+	for i := range path {
+		if t == nil {
+			return
+		}
+		if t.Kind == tMAP && (path[i].Kind == 2 || path[i].Kind == 3) && c.w.T.Chance(1, 4, "path.binkey") {
+			kv := &TVal{T: t.Key, I: path[i].IKey, S: []byte(path[i].SKey)}
+			path[i].Bin = encodeThrift(nil, kv)
+			c.w.Count("path_bin_key")
+		}
+		t = typeAt(t, path[i])
+	}
 }
 
 // childAt returns the child addressed by step (nil if absent) and whether the step fits v's kind.
@@ -831,6 +882,7 @@ func (c *c04) verifyAllFacts(after string, edited *c04Handle, facts map[string]s
 }
 
 func (c *c04) doSet(h *c04Handle, path []pstep, nv *TVal, tt *TType, byName bool) (bool, error) {
+	c.withBinKeys(h.rootT, path)
 	b := encodeThrift(nil, nv)
 	if h.typed {
 		d := descAt(h.rootD, h.rootT, path)
@@ -840,6 +892,7 @@ func (c *c04) doSet(h *c04Handle, path []pstep, nv *TVal, tt *TType, byName bool
 }
 
 func (c *c04) doUnset(h *c04Handle, path []pstep, byName bool) error {
+	c.withBinKeys(h.rootT, path)
 	if h.typed {
 		return h.val.UnsetByPath(c.libPath(path, byName)...)
 	}
@@ -848,7 +901,23 @@ func (c *c04) doUnset(h *c04Handle, path []pstep, byName bool) error {
 
 func (c *c04) failingOp(h *c04Handle) {
 	w, t := c.w, c.w.T
-	switch t.Intn(3, "fail.kind") {
+	switch t.Intn(4, "fail.kind") {
+	case 3: // SetMany with a wrong-kind path: rejected as a whole, the value stays as it is
+		if h.typed {
+			return
+		}
+		path, ok := c.randomPath(h.model, 3)
+		if !ok || len(path) != 1 {
+			return
+		}
+		w.NextOp(fmt.Sprintf("%s.SetMany(wrong-kind %s) [must fail]", h.name, pathString(path)))
+		nv := &TVal{T: &TType{Kind: tI32}, I: 7}
+		pns := []generic.PathNode{{Path: toLibPath(path, false)[0], Node: generic.NewNode(thrift.I32, encodeThrift(nil, nv))}}
+		if err := h.node.SetMany(pns, &generic.Options{}); err == nil {
+			w.Failf("wrong-kind-accepted", nil, "SetMany with a path that does not fit the container kind succeeded (path %s)", pathString(path))
+		}
+		w.Count("fail_setmany_wrong_kind")
+		c.verifyAll("failed wrong-kind setmany "+pathString(path), h, nil, 0)
 	case 0: // wrong-kind path
 		path, ok := c.randomPath(h.model, 3)
 		if !ok {
